@@ -475,11 +475,7 @@ def run(chk):
     # F2: a field element of magnitude 32 with limbs at the documented maximum (get_bounds(16) doubled) is mis-normalised by the 10x26 field
     f2 = [{"e": "KFeSeq", "in": {"init": [b32(1)], "ops": [["get_bounds", 0, 0, 0, 16], ["mul_int", 0, 0, 0, 2]]}},
           {"e": "KFeSeq", "in": {"init": [b32(1)], "ops": [["get_bounds", 0, 0, 0, 16], ["add", 0, 0, 0, 0], ["normalize", 0, 0, 0, 0], ["get_b32", 0, 0, 0, 0]]}}]
-    if not strict:
-        for r in f2:
-            chk.known.append("known: property=C05 key=%s F2: 10x26 field (USE_FORCE_WIDEMUL_INT64): fe_normalize/_weak/_var of a magnitude-32 element whose limbs are at "
-                             "their documented maximum (secp256k1_fe_get_bounds(16) doubled) wraps a 32-bit limb and returns a wrong value; set C05_STRICT=1 to count it "
-                             "as a violation" % vlib.rec_key(r))
+    # (the two probe records are listed by key in /verif/known_findings.txt; a different failing record is still a VIOLATION)
     for v in variants:
         _, ev = run_robust(chk, f2, v, "probe F2")
         for e in ev:
@@ -491,8 +487,7 @@ def run(chk):
         obs, rc, err = tolerant_harness(chk.bins[v], [e3])
         if rc != 0:
             msg = "E3 [%s]: secp256k1_fe_equal(a, b) with b.magnitude = 31 (allowed by field.h and by the function's own VERIFY precondition) aborts: %s" % (v, err.strip()[-160:])
-            if strict: chk.violation(msg, [e3], v)
-            else: chk.known_hits.append("known: property=C05 key=%s %s" % (vlib.rec_key(e3), msg))
+            chk.violation(msg, [e3], v)      # listed by key in known_findings.txt
         elif obs and obs[0]["out"]["ret"][-1] != 0:
             chk.violation("fe_equal(5, -7) returned non-zero", [e3], v)
     # events of two variants differ legitimately only in KFeSeq records (mag/nrm presence, get_bounds values); anything else is a cross-configuration difference
